@@ -81,3 +81,12 @@ void F___assert_fail(unsigned char *expr, unsigned char *file, unsigned int line
   abort();
 #endif
 }
+
+/* C library / C++ ABI pieces used by third-party code on encoded paths (sdsl::int_vector storage, function-local statics) */
+void *F_realloc(void *p, unsigned long n) { void *q = realloc(p, n ? n : 1); RT_ASSUME(q != 0); return q; }
+void F_free(void *p) { free(p); }
+unsigned int F___cxa_guard_acquire(unsigned long *g) { return *(unsigned char *) g == 0; }
+void F___cxa_guard_release(unsigned long *g) { *(unsigned char *) g = 1; }
+unsigned int F___cxa_atexit(void *f, void *a, void *d) { return 0; }
+unsigned char g___dso_handle;
+unsigned char *g__ZTVSt9bad_alloc[8], *g__ZTVSt12system_error[8], *g__ZTVSt13runtime_error[8];
